@@ -187,7 +187,60 @@ def respell(T, py):
     return out if changed[0] else None
 
 
+def run_names(case):
+    """Named numbers and named bits on the value-plus-schema path: two sibling types derived from ONE base name list (extension
+    with +, clone(), subtype(namedValues=)) map some of the same names to different numbers; a name given as a Python string
+    under each type encodes to that type's number / bit positions - computed here from the case, not by the library - whatever
+    the order in which the types are built and used. case: {'names': {'base': [[n, v]..], 'ext': [[[n, v]..], [[n, v]..]],
+    'kind': 'ENUMERATED'|'INTEGER'|'BITSTRING', 'how': 0..2, 'order': [..], 'asks': [[type index, [names]]..]}}"""
+    from pyasn1.type import namedval, univ as _u
+    fails = []
+    c = case['names']
+    base = namedval.NamedValues(*[tuple(x) for x in c['base']])
+    cls = {'ENUMERATED': _u.Enumerated, 'INTEGER': _u.Integer, 'BITSTRING': _u.BitString}[c['kind']]
+    types, maps = [None, None], [None, None]
+    for i in c['order']:
+        ext = [tuple(x) for x in c['ext'][i]]
+        if c['how'] == 0:
+            nv = base + namedval.NamedValues(*ext)
+            types[i] = cls(namedValues=nv)
+        elif c['how'] == 1:
+            types[i] = cls(namedValues=base.clone(*ext))
+        else:
+            types[i] = cls(namedValues=base).subtype(namedValues=namedval.NamedValues(*ext))
+        maps[i] = dict(c['base'] + c['ext'][i]) if c['how'] != 2 else dict(c['ext'][i])
+    for i, names in c['asks']:
+        T_, mp = types[i], maps[i]
+        names = [n for n in names if n in mp]
+        if not names:
+            continue
+        if c['kind'] == 'BITSTRING':
+            text = ', '.join(names)
+            nbits = max(mp[n] for n in names) + 1
+            val = 0
+            for n in names:
+                val |= 1 << (nbits - 1 - mp[n])
+            want_ir, kind = (nbits, val), 'BITSTRING'
+        else:
+            text = names[0]
+            want_ir, kind = mp[text], c['kind']
+        want = x690.der(ir.mk(kind) if kind != 'ENUMERATED' else ir.mk('ENUMERATED', named=[[text, want_ir]]), want_ir)
+        for codec in ('BER', 'DER'):
+            a = lib.encode(codec, text, asn1Spec=T_)
+            if not a.ok:
+                fails.append({'sub': 'names', 'kind': 'raises', 'sig': a.sig, 'obs': None,
+                              'msg': '%s.encode(%r, asn1Spec=type %d) %s' % (codec.lower(), text, i, a.brief())})
+            elif a.value != want:
+                fails.append({'sub': 'names', 'kind': 'bytes', 'sig': '', 'obs': None,
+                              'msg': '%s.encode(%r, asn1Spec=type %d with %s) = %s, the names stand for %s' % (
+                                  codec.lower(), text, i, sorted(mp.items())[:6], a.value.hex(), want.hex())})
+    return fails
+
+
 def replay(case):
+    if case.get('names'):
+        return [dict(f, case=ir.to_jsonable(case), obs=None) for f in run_names(case)]
+
     return [dict(f, case=ir.to_jsonable(case), obs=ir.to_jsonable(f.get('obs'))) for f in run_case(case)]
 
 
@@ -243,6 +296,39 @@ def run_shard(desc, seed, tier, col):
         return T, v, tape, 'ENUMERATED' in ir.kinds_in(T) and d.pct(50), (draw(gen.ber_modes()) if d.pct(60) else None)
 
     harness.run_given(cases(), body, seed, desc['examples'], col)
+
+    @st.composite
+    def name_cases(draw):
+        d = gen.D(draw, gen.DEFAULT_CFG)
+        pool = ['ok', 'retry', 'fail', 'urgent', 'active', 'x', 'y', 'z']
+        kind = d.pick(['ENUMERATED', 'INTEGER', 'BITSTRING', 'BITSTRING'])
+        nb = d.int(1, 2)
+        base = [[pool[j], j] for j in range(nb)]
+        hi = 9 if kind == 'BITSTRING' else 40
+        ext = []
+        for _ in range(2):
+            names = pool[nb:nb + d.int(1, 4)]
+            nums = []
+            while len(nums) < len(names):
+                x = d.int(nb, hi)
+                if x not in nums:
+                    nums.append(x)
+            ext.append([[n, x] for n, x in zip(names, nums)])
+        asks = [[d.int(0, 1), [d.pick(pool[:nb + 4]) for _ in range(d.int(1, 3))]] for _ in range(d.int(2, 5))]
+        asks = [[i, sorted(set(ns), key=ns.index)] for i, ns in asks]
+        return {'names': {'base': base, 'ext': ext, 'kind': kind, 'how': d.int(0, 2), 'order': d.pick([[0, 1], [1, 0]]), 'asks': asks}}
+
+    def name_body(case):
+        c = case['names']
+        col.case(case, c['ext'][0] != c['ext'][1], ['names:' + c['kind'], 'derived-by:' + ('+', 'clone', 'subtype')[c['how']]],
+                 sample={'kind': c['kind'], 'base': c['base'], 'extensions': c['ext'], 'asked': c['asks'][:3]})
+        seen = set()
+        for f in run_names(case):
+            if (f['kind'], f['sig']) not in seen:
+                seen.add((f['kind'], f['sig']))
+                col.fail(f['sub'], f['kind'], f['msg'], case, sig=f['sig'])
+
+    harness.run_given(name_cases(), name_body, seed + 7, max(30, desc['examples'] // 8), col)
 
 
 FINDINGS = {}
